@@ -119,6 +119,7 @@ class KaniBuild:
         self.findings = [f for f in findings if f.get("status") == "known" and f.get("engine", "kani") == "kani"]
         self.units: Dict[str, Unit] = {}
         self.fallback = []
+        self.clause_text: Dict[str, Dict[str, str]] = {}
         self._sv = set()
         self.skipped: List[str] = []
         self.diff = ""
@@ -135,7 +136,14 @@ class KaniBuild:
         for f in self.findings:
             fby.setdefault(f["unit"], []).append(f)
 
+        def remember(unit_name: str, text: str):
+            d = self.clause_text.setdefault(unit_name, {})
+            for m in re.finditer(r"/\*\[([\w.]+)\*/(.*?)/\*\]\*/", text, re.S):
+                if m.group(1) != "regmask":
+                    d.setdefault(m.group(1), re.sub(r"\s+", " ", m.group(2)).strip()[:400])
+
         def regionise(unit_name: str, text: str) -> str:
+            remember(unit_name, text)
             for f in fby.get(unit_name, []):
                 cl = f["clause"]
                 new = _apply_regmask(text, cl[4:], f["region"]) if cl.startswith("reg.") else _apply_region(text, cl, f["region"])
@@ -172,6 +180,7 @@ class KaniBuild:
                         self.units[tname] = Unit(tname, primary_props(c.props, "L1"), c.klass, [f["clause"]], "harness", c.fn, file, c.replay,
                                                  group="L1", twin_of=name, finding=f)
                     continue
+                remember(name, kani_l1.attrs(c))
                 an.attrs_above(file, c.fn, kani_l1.attrs(c))
                 body = c.harness.rstrip("\n") + f'\n        kani::cover!(true, "reachable");'
                 self.units[name] = Unit(name, primary_props(c.props, "L1"), c.klass, clauses, "contract", c.fn, file, c.replay, group="L1")
